@@ -175,13 +175,11 @@ where
             return Err(RadioError::InvalidBandwidthForFrequency);
         }
 
-        // Section 4.1.1.5 and 4.1.1.6
-        let bw_in_hz = u32::from(bandwidth);
-        let symbol_duration = 1000 / (bw_in_hz / (0x01u32 << spreading_factor_value(spreading_factor)?));
-        let mut low_data_rate_optimize = 0x00u8;
-        if symbol_duration > 16 {
-            low_data_rate_optimize = 0x01u8
-        }
+        // Section 4.1.1.5 and 4.1.1.6: mandated for symbol times of 16.38 ms and above. Use
+        // the same decision as the airtime calculation; the truncating integer form used here
+        // before evaluated to exactly 16 for SF11/125 kHz and SF12/250 kHz and left it off.
+        let low_data_rate_optimize =
+            lora_modulation::BaseBandModulationParams::new(spreading_factor, bandwidth, coding_rate).ldro as u8;
 
         Ok(ModulationParams {
             spreading_factor,
